@@ -104,3 +104,21 @@ def segments(t, k):
 
 def ckey(case):
     return tuple(sorted((k, repr(v)) for k, v in case.items()))
+
+
+def guarded(shape):
+    """Decorator: an exception escaping a check function (only conceivable on a broken tree) becomes a violation
+    'check:unexpected-exception:<Exc>@<function>' instead of a harness crash.  shape(bad) builds the function's usual return value."""
+    import functools
+    import traceback
+
+    def deco(fn):
+        @functools.wraps(fn)
+        def wrapper(*a, **kw):
+            try:
+                return fn(*a, **kw)
+            except Exception as e:   # pragma: no cover - not reached on a healthy tree
+                where = traceback.extract_tb(e.__traceback__)[-1].name
+                return shape([('check:unexpected-exception:%s@%s' % (type(e).__name__, where), repr(e)[:300])])
+        return wrapper
+    return deco
